@@ -135,11 +135,15 @@ class Stream:
 
         """
         self.check_usable()
-        rows = encode_namespace_declaration(
-            name=name,
-            value=iri,
-            term_encoder=self.encoder,
-        )
+        try:
+            rows = encode_namespace_declaration(
+                name=name,
+                value=iri,
+                term_encoder=self.encoder,
+            )
+        except BaseException:
+            self.failed = True
+            raise
         self.flow.extend(rows)
 
     @classmethod
@@ -288,7 +292,11 @@ class GraphStream(TripleStream):
         self.check_usable()
         graph_start = jelly.RdfGraphStart()
         self.encoder.new_row()
-        [*graph_rows] = self.encoder.encode_graph(graph_id, graph_start)
+        try:
+            [*graph_rows] = self.encoder.encode_graph(graph_id, graph_start)
+        except BaseException:
+            self.failed = True
+            raise
         start_row = jelly.RdfStreamRow(graph_start=graph_start)
         graph_rows.append(start_row)
         self.flow.extend(graph_rows)
